@@ -194,8 +194,8 @@ def main(argv=None):
             print("VIOLATION property=%s replay=%s" % (prop, rp))
         status = 1
     if reasons and status == 0:
-        for r in reasons:
-            print("INCONCLUSIVE property=%s reason=%s" % (prop, r))
+        for r in reasons[:6]:
+            print("INCONCLUSIVE property=%s reason=%s" % (prop, r.strip().replace("\n", " | ")[-700:]))
         status = 2
     return status
 
